@@ -24,9 +24,8 @@ HEADER = ("From Coq Require Import ZArith QArith String List.\nImport ListNotati
 
 KINDS = {"inner_join": "JInner", "left_join": "JLeft", "full_join": "JFull", "cross_join": "JCross"}
 ID_DOM = {"Id_1": ("Integer", [1, 2, 3, 4]), "Id_2": ("String", ["A", "B", "C"]), "K": ("Integer", [7, 8, 9])}
-KNOWN_FULL3 = "full_join:3-operands:key-missing-in-first-operand"
-KNOWN_ISNULL_NOT = "body-expr:isnull-of-not"
-ISNULL_NOT = "(CUn IsNull (CUn Not "
+# stable key of a defect repaired in /repo (fix 94e8b5c); not a known finding: its return is a VIOLATION
+REGRESSION_FULL3 = "full_join:3-operands:key-missing-in-first-operand"
 
 
 # ------------------------------------------------------------------ inputs
@@ -566,11 +565,7 @@ def run_k(ctx, n_valid: int, n_malformed: int, tag="c04"):
     rejected = sum(c["rejected"] for c in cases)
     ctx.log(f"generated and ran {len(cases) - n_corpus} cases (+{n_corpus} corpus) on the engine")
     model = eval_model(cases, tag)
-    # cases on which the engine-faithful variant differs from the specification by construction
-    full3 = [i for i, c in enumerate(cases) if (c.get("feat", {}).get("kind") == "full_join" and c.get("feat", {}).get("n_ops", 2) >= 3)
-             or ISNULL_NOT in c["coq"]]
-    impl = dict(zip(full3, eval_model([cases[i] for i in full3], tag + "_impl", impl=True))) if full3 else {}
-    ctx.log(f"model evaluated ({len(cases)} spec, {len(full3)} engine-faithful variants)")
+    ctx.log(f"model evaluated ({len(cases)} cases)")
     dist: Dict[str, Dict[str, int]] = {k: {} for k in ("kind", "n_ops", "config", "using", "alias", "dup_mode", "overlap", "body_len",
                                                        "dup_names", "semantic", "result_rows", "engine_errors", "clauses")}
 
@@ -601,16 +596,17 @@ def run_k(ctx, n_valid: int, n_malformed: int, tag="c04"):
             continue
         dis += 1
         pred = engine_dup_keys(er)
-        if i in impl and exprk.compare(er, impl[i]) is None:
-            is_full3 = f.get("kind") == "full_join" and f.get("n_ops", 2) >= 3
-            if ISNULL_NOT in c["coq"] and not (is_full3 and pred):
-                ctx.violation(KNOWN_ISNULL_NOT, f"{c['script'].strip()} :: engine = engine-faithful model (isnull(not x) read as not isnull(x)), "
-                              f"differs from the specification: {d}", {"case": case_json(c), "disagreement": d})
-            else:
-                ctx.violation(KNOWN_FULL3, f"{c['script'].strip()} :: engine = engine-faithful model (left-deep ON first operand), "
-                              f"differs from the relational full join: {d}" + (f"; {pred}" if pred else ""),
+        if f.get("kind") == "full_join" and f.get("n_ops", 2) >= 3 and pred:
+            # the repaired left-deep formulation (Model/Join.v full_combos_impl) is evaluated only to NAME the regression
+            try:
+                back = exprk.compare(er, eval_model([c], tag + "_impl", impl=True)[0]) is None
+            except Exception:  # noqa
+                back = False
+            if back:
+                ctx.violation(REGRESSION_FULL3, f"{c['script'].strip()} :: the engine again behaves as the left-deep full join repaired by "
+                              f"fix 94e8b5c (ON compares with the first operand only): {d}; {pred}",
                               {"case": case_json(c), "disagreement": d, "predicate": pred})
-            continue
+                continue
         raw = (not er["ok"]) and er["err"][0] in ("RawDuckDB", "RawPython")
         key = ("raw:" + er["err"][1] if raw else "wrong-result") + ":" + f.get("kind", "?") + (":using" if f.get("using") else "") + \
               ":" + "+".join(sorted(k for k in c["hist"] if k.startswith("clause:")))
@@ -647,7 +643,7 @@ def replay_case(obj):
     print("inputs:", json.dumps(case_json(c)["inputs"], default=str))
     print("engine  :", er.get("datasets", {}).get("DS_r") if er["ok"] else (er["err"], er["msg"]))
     print("expected:", exprk.model_result(m, None), "(Model/Join.v, relational join)")
-    print("engine-faithful model:", "agrees with engine" if exprk.compare(er, mi) is None else exprk.model_result(mi, None))
+    print("left-deep full join (repaired defect):", "engine agrees with it" if exprk.compare(er, mi) is None else "engine differs from it")
     print("predicate:", engine_dup_keys(er))
     print("verdict:", "agree" if d is None else d)
     return 0 if d is None else 1
